@@ -49,13 +49,27 @@ def _count(items, names):
     return flat.get(tuple(names), [])
 
 
-def _has_interp(items):
+def _interp_defs(items):
+    """Dynamic (interpolated) bindings: [(spelling, value tokens)] — they are not spellings of any literal name."""
+    out = []
     for b in items:
         if "interp" in b.kinds:
-            return True
-        if b.children and _has_interp(b.children):
-            return True
-    return False
+            out.append((b.spelling, b.value_tokens))
+        elif b.children:
+            out.extend(_interp_defs(b.children))
+    return out
+
+
+def _static(items):
+    """items without dynamic bindings (recursively)."""
+    res = []
+    for b in items:
+        if "interp" in b.kinds:
+            continue
+        if b.children:
+            b = cst.AttrBinding(b.path, b.spelling, b.kinds, b.value_node, b.value_tokens, b.form, b.node, _static(b.children))
+        res.append(b)
+    return res
 
 
 def judge(names, doc, force_quotes=()):
@@ -63,6 +77,8 @@ def judge(names, doc, force_quotes=()):
     fails = []
     path = N.encode_path(names, force_quotes)
     nima.reset_state()
+    items0, _t = _defs(doc, names)
+    dyn0 = _interp_defs(items0 or [])
     try:
         out1 = nima.set_value(nima.parse(doc), path, "1")
     except Exception as e:  # noqa: BLE001
@@ -70,8 +86,10 @@ def judge(names, doc, force_quotes=()):
     items, tree = _defs(out1, names)
     if items is None:
         return [("set-invalid-output", {"path": path, "out": out1[:200]})]
-    if _has_interp(items):
-        fails.append(("set-wrote-interpolation", {"path": path, "out": out1[:200]}))
+    dyn1 = _interp_defs(items)
+    if dyn1 != dyn0:
+        fails.append((("set-wrote-interpolation" if len(dyn1) > len(dyn0) else "set-touched-dynamic-binding"), {"path": path, "doc": doc[:200], "out": out1[:200]}))
+    items = _static(items)
     vals = _count(items, names)
     if len(vals) != 1:
         fails.append((("set-name-not-read-back" if not vals else "set-duplicate-definition"), {"path": path, "out": out1[:200], "defs": len(vals)}))
@@ -86,6 +104,9 @@ def judge(names, doc, force_quotes=()):
     items2, _ = _defs(out2, names)
     if items2 is None:
         return fails + [("second-set-invalid-output", {"path": path, "out": out2[:200]})]
+    if _interp_defs(items2) != dyn0:
+        fails.append(("second-set-touched-dynamic-binding", {"path": path, "out": out2[:200]}))
+    items2 = _static(items2)
     vals2 = _count(items2, names)
     if len(vals2) != 1 or vals2[0] != (("integer_expression", "2"),):
         fails.append(("second-set-missed-binding", {"path": path, "out": out2[:200], "defs": len(vals2)}))
@@ -97,7 +118,9 @@ def judge(names, doc, force_quotes=()):
     items3, _ = _defs(out3, names)
     if items3 is None:
         return fails + [("rm-invalid-output", {"path": path, "out": out3[:200]})]
-    if _count(items3, names):
+    if _interp_defs(items3) != dyn0:
+        fails.append(("rm-touched-dynamic-binding", {"path": path, "doc": out2[:200], "out": out3[:200]}))
+    if _count(_static(items3), names):
         fails.append(("rm-left-binding", {"path": path, "out": out3[:200]}))
     return fails
 
@@ -187,6 +210,38 @@ def case_docs(names, r):
                 its = cst.attr_items(t, tops[0]) if len(tops) == 1 and tops[0].type == "attrset_expression" else []
                 if len(its) == 1 and its[0].path == (n,) and its[0].kinds == ("bare",):
                     docs.append(("pre-bare-hyphen", "{ " + n + " = 0; }", ()))
+    bareable = [i for i, n in enumerate(names) if not N.needs_quotes(n) and n not in KEYWORDS]
+
+    def spell(ns, quoted):
+        return ".".join(N.nix_quote(n) if (i in quoted or N.needs_quotes(n) or n in KEYWORDS) else n for i, n in enumerate(ns))
+
+    if len(names) >= 2:
+        # the path pre-exists as an attrpath binding / nested sets / next to a sibling of the same family, each with
+        # its own choice of spellings; the edit path chooses again
+        qa = {i for i in bareable if r.random() < 0.5}
+        qb = {i for i in bareable if r.random() < 0.5}
+        if bareable and qa == qb:
+            qb = qb ^ {r.choice(bareable)}
+        fq = tuple(sorted(i for i in bareable if r.random() < 0.5))
+        docs.append(("pre-attrpath", "{ " + spell(names, qa) + " = 0; }", fq))
+        pre = list(names[:-1])
+        docs.append(("pre-attrpath-sibling", "{ " + spell(pre + ["sib0"], qa) + " = 0; " + spell(names, qb) + " = 0; }", fq))
+        docs.append(("pre-family-only", "{ " + spell(pre + ["sib0"], qa) + " = 0; " + spell(pre + ["sib1"], qb) + " = 0; }", fq))
+        nested = "0"
+        for i in range(len(names) - 1, -1, -1):
+            nested = "{ " + spell([names[i]], {0} if i in qa else set()) + " = " + nested + "; }"
+        docs.append(("pre-nested-sets", nested, fq))
+    # a dynamic name `"a${x}"` is not a spelling of the literal name `a${x}`
+    last = names[-1]
+    k = last.find("${x}")
+    if k >= 0 and "${" not in last[:k] and "${" not in last[k + 4 :]:
+        raw = N.nix_quote(last[:k])[:-1] + "${x}" + N.nix_quote(last[k + 4 :])[1:]
+        doc = '{ x = "k"; ' + spell(names[:-1], set()) + ("." if len(names) > 1 else "") + raw + " = 0; }"
+        t = cst.parse(doc)
+        if cst.valid(t):
+            its, _t = _defs(doc, names)
+            # `$${x}` is literal text: then the document simply holds the same name
+            docs.append(("pre-dynamic" if _interp_defs(its or []) else "pre-literal-dollar", doc, ()))
     return docs
 
 
